@@ -21,8 +21,11 @@ func VerifC02Phases() {
 	}
 	node := stat.GetOrCreateResourceNode("A", base.ResTypeCommon)
 	type req struct {
-		ctx *base.EntryContext
-		b   int64
+		ctx     *base.EntryContext
+		b       int64
+		r       *base.TokenResult // what the rule check returned; the chain reads its status again when it reports the outcome
+		blocked bool              // the rule check found it blocked
+		told    bool              // the statistic slots have been told the outcome (a blocked request then only has to exit)
 	}
 	var pending []req
 	var recorded, admitted, maxBatch int64
@@ -36,26 +39,47 @@ func VerifC02Phases() {
 			}
 			ctx := verifCtx("A", node, uint32(b))
 			r := DefaultSlot.Check(ctx)
-			blocked := r != nil && r.IsBlocked()
-			if len(pending)+1 > kmax {
-				kmax = len(pending) + 1
+			if r != nil {
+				ctx.RuleCheckResult = r // as SlotChain.Entry does with the result of the rule checks
 			}
-			if len(pending) == 0 {
+			blocked := r != nil && r.IsBlocked()
+			inPath := 0
+			for _, q := range pending {
+				if !q.blocked {
+					inPath++
+				}
+			}
+			if inPath+1 > kmax {
+				kmax = inPath + 1
+			}
+			if inPath == 0 {
 				rt.Assert(blocked == (recorded+b > int64(thr)), "alone in the admission path: admitted iff tokens admitted in the window + batch <= threshold")
 			}
 			if !blocked {
-				pending = append(pending, req{ctx, b})
 				admitted += b
+			}
+			if !blocked || rt.Param("BLOCKED") != 0 {
+				pending = append(pending, req{ctx: ctx, b: b, r: r, blocked: blocked})
 			}
 			rt.Reach("c02p.check")
 		} else {
 			i := rt.Choice(len(pending))
 			q := pending[i]
-			pending = append(pending[:i:i], pending[i+1:]...)
-			stat.DefaultSlot.OnEntryPassed(q.ctx)
-			DefaultStandaloneStatSlot.OnEntryPassed(q.ctx)
-			recorded += q.b
-			rt.Reach("c02p.passed")
+			switch {
+			case q.blocked && q.told: // the blocked entry exits: its context is refurbished for the pool
+				q.ctx.Reset()
+				pending = append(pending[:i:i], pending[i+1:]...)
+			case q.r != nil && q.r.IsBlocked(): // the chain reports the outcome it reads from the result now
+				rt.Assert(q.blocked, "a request the rule check admitted is not reported as blocked")
+				pending[i].told = true
+			default:
+				rt.Assert(!q.blocked, "a request the rule check rejected is not recorded as passed (rejected requests do not consume quota), whatever other requests do meanwhile")
+				pending = append(pending[:i:i], pending[i+1:]...)
+				stat.DefaultSlot.OnEntryPassed(q.ctx)
+				DefaultStandaloneStatSlot.OnEntryPassed(q.ctx)
+				recorded += q.b
+				rt.Reach("c02p.passed")
+			}
 		}
 		excess := int64(kmax-1) * maxBatch
 		if excess < 0 {
